@@ -11,8 +11,16 @@ double __wrap_cos(double a) { return (double)C_; }
 double __wrap_sin(double a) { return (double)S_; }
 void __wrap_sincos(double a, double* s, double* c) { *s = (double)S_; *c = (double)C_; }    /* gcc fuses sin+cos into sincos */
 #endif
+static int QM_;      /* rot0 == 2: the rotation is QM_ quarter turns, QM_ in -4..4 (exact multiples of pi/2 take separate branches in the code) */
 static NUM pick_rotation(int rot0) {
-  if (rot0) { C_ = 1; S_ = 0; return NUM_OF_INT(0); }
+  if (rot0 == 1) { C_ = 1; S_ = 0; return NUM_OF_INT(0); }
+  if (rot0 == 2) { QM_ = (int)nd_range(-4, 4); int k = ((QM_ % 4) + 4) % 4; C_ = k == 0 ? 1 : k == 2 ? -1 : 0; S_ = k == 1 ? 1 : k == 3 ? -1 : 0;
+#ifdef REAL
+    return (double)QM_ * (3.14159265358979323846 / 2);      /* the real angle; libm's cos/sin are wrapped to the exact (C_, S_) */
+#else
+    return NUM_OF_INT(100 + QM_);                             /* marker understood by the is_multiple_of_pi_over_2 contract below */
+#endif
+  }
   C_ = (OI)nd_range(-2, 2); S_ = (OI)nd_range(-2, 2); ASSUME(C_ != 0 || S_ != 0);
 #ifdef AXIS_ONLY
   ASSUME((C_ == 0 && (S_ == 1 || S_ == -1)) || (S_ == 0 && C_ == -1));      /* optional: rotations an exact angle k*pi/2 realises */
@@ -21,3 +29,10 @@ static NUM pick_rotation(int rot0) {
 }
 #define VX(v) ((v).f0.f0.f0)
 #define VY(v) ((v).f0.f0.f1)
+
+#if !defined(REAL) && defined(QUARTER_TURN_CONTRACT)
+/* gdstk::is_multiple_of_pi_over_2 by contract for the angle markers of pick_rotation: 0 -> m = 0; 100 + q -> m = q; the free angle 1 -> no multiple */
+uint8_t _ZN5gdstk24is_multiple_of_pi_over_2EdRl(NUM angle, uint64_t* m) { if (NUM_EQ(angle, NUM_OF_INT(0))) { *m = 0; return 1; }
+  for (int q = -4; q <= 4; q++) if (NUM_EQ(angle, NUM_OF_INT(100 + q))) { *m = (uint64_t)(int64_t)q; return 1; }
+  return 0; }
+#endif
